@@ -1197,6 +1197,23 @@ def addAll : IM → IM → Option IM
 
 def infoFieldsM (fs : Fields) : Option IM := addAll .nil (infoFields fs)
 
+/-- **the loader with the merging** (round 5e): `conf.LoadFromJsonBytes` on ANY struct type, also one whose flattened fields
+repeat a lower-cased key: the info is what `buildStructFieldsInfo` builds through `addOrMergeFields` (`infoFieldsM`; `none`
+= conflict error), a PURE function of the type.  Equal to `loadTreeO` when no key repeats (`loadTreeM_eq_loadTreeO`). -/
+def loadTreeM (o : Opts) (fs : Fields) (j : J) : R Val :=
+  if fieldsConflict fs then .error .err else
+  match infoFieldsM fs with
+  | none => .error .err
+  | some im =>
+    match j with
+    | .obj m => (unmarshalStruct o [] fs (lowerMap (.node im) m)).map .struct
+    | .null => (unmarshalStruct o [] fs .nil).map .struct
+    | _ => .error .err
+
+/-- NOT the code that exists (seeded C17-10): the info of a named struct type is kept between loads and `mergeFields`
+writes into it.  `kept` = the children of the first embedded struct as the previous loads left them. -/
+def infoFieldsShared (kept : IM) (others : IM) : Option IM := addAll .nil (kept.append others)
+
 /-! ### the decisions of the unmarshaller's dispatch functions (round 5c)
 
 The routing that `unmarshalStruct` / `withValue` / `withoutValue` implement, as first-order decision functions; `Tie.lean`
